@@ -300,6 +300,10 @@ def _worker_b1(task: Dict[str, Any]) -> Dict[str, Any]:
                     if pair_no % 8 == 0:
                         # the same atom through the quantifier-elimination strategy
                         got_qe = H.call_evaluate(atom & numeric_conjunct, tree, grammar, 20.0)
+                        for _ in range(2):
+                            if got_qe != "U":
+                                break  # 500 ms Z3 timeout inside is_valid() on a loaded machine: retry
+                            got_qe = H.call_evaluate(atom & numeric_conjunct, tree, grammar, 20.0)
                         gots.append(("qe", got_qe))
                         counts["qe_cases"] += 1
                     counts["cases"] += 1
@@ -432,7 +436,7 @@ def run(rep, tier: str, seed: int) -> None:
     # big tasks first
     indexed = list(enumerate(tasks))
     indexed.sort(key=lambda it: (0 if it[1]["part"] != "A" else 1, it[0]))
-    with multiprocessing.get_context("fork").Pool(WORKERS) as pool:
+    with multiprocessing.get_context("fork").Pool(WORKERS, maxtasksperchild=1) as pool:
         results = pool.map(_worker, [t for _, t in indexed], chunksize=1)
     by_index = {idx: res for (idx, _), res in zip(indexed, results)}
     results = [by_index[i] for i in range(len(tasks))]
